@@ -57,6 +57,11 @@ LOOKALIKE_IDS = ["metrics", "healthy-1", "full-metrics", "static"]
 
 
 def shapes(T):
+    if T == "":
+        # the configured token is the empty string (an unset environment variable handed through): still a configured token -
+        # nothing that presents something else, or nothing at all, is served
+        return [("absent", None), ("wrong", "Bearer wrong"), ("basic_wrong", "Basic dXNlcjpwdw=="), ("other_servers_token", "Bearer 0therTok"),
+                ("non_ascii", "Bearer \u00fc"), ("one_char", "Bearer x")]
     sw = T.swapcase()
     mid = len(T) // 2
     repl = T[:mid] + ("x" if T[mid] != "x" else "y") + T[mid + 1:]
@@ -144,7 +149,7 @@ def generate(spec):
     npos = len(ops2) + 1
     bursts = sorted(set([rng.randrange(npos) for _ in range(rng.choice([1, 2, 2, 3]))] + ([0] if rng.random() < 0.25 else []) + [npos - 1]))
     # the token is data: characters that mean something to a regular expression, a URL or a shell are characters like any other
-    token = rng.choice([TOKEN, TOKEN, "v2.prod.7f3a9c", "a+b(c)*d", "t0k/en?x=1"])
+    token = rng.choice([TOKEN, TOKEN, "v2.prod.7f3a9c", "a+b(c)*d", "t0k/en?x=1", ""])
     broken = bool(adapter) and rng.random() < 0.12
     return {"property": PROPERTY, "config": {"adapter": adapter, "token": token, "state_dir_missing": broken,
                                              # the whole history is driven inside one pushed application context (a script or a fixture does that)
@@ -259,9 +264,9 @@ def concurrent_phase(w, st, o, res, log, with_intruders):
         reqs = [("POST", "/start-instance", {"timeout": {"minutes": 5}}, None),
                 ("POST", "/%s/run-step" % iid, {"settings": SET9}, "Bearer wrong"),
                 ("POST", "/%s/stop-instance" % iid, None, None),
-                ("GET", "/scenarios", None, "Bearer " + T[:-1]),
+                ("GET", "/scenarios", None, "Bearer " + (T[:-1] if T else "x")),
                 ("POST", "/%s/begin-session" % iid, BODIES["begin-session"], ""),
-                ("POST", "/%s/keep-alive" % iid, None, "Basic " + T[::-1])]
+                ("POST", "/%s/keep-alive" % iid, None, "Basic " + (T[::-1] if T else "dXNlcjpwdw=="))]
         got = []
         for (m, path, body, hdr) in reqs:
             r = w.request(m, path, body=body, auth=False, headers={} if hdr is None else {"Authorization": hdr})
